@@ -254,6 +254,10 @@ def run(tier):
             raise Broken("negative control: a chunk marked valid without B's bytes on disk was accepted")
     ck.extra["rule"] = "one case = (B, initial target, ordered list of 1-3 sources of the kinds listed) or one find_matching pairing"
     ck.assumptions = ["usable/matchable follow the library's lookup semantics (first source chunk carrying the checksum)", "disk facts from snapshots after each copy"]
+    # the implementation-shaped model of the copy (CopyImpl): its invariants, the documented counterexamples of its variants,
+    # and real copies of members of its own family replayed on it by TLC (Trace_Copy)
+    from .. import copyimpl
+    copyimpl.run(ck, "C08", tier, rnd)
     shutil.rmtree(wd, ignore_errors=True)
     return ck.finish()
 
